@@ -180,6 +180,42 @@ Example C01_hole :
    ob_status (snd cr) = 0 /\ option_map o_size (fs_get (fs (fst cr)) [[98]]) = Some 0).
 Proof. vm_compute. repeat split; reflexivity. Qed.
 
+(* ---------- histories: the model refines the byte-array specification step by step ---------- *)
+(* Definitions (Proofs/SrvData.v, section 8):
+     sfiles = path -> option bfile                 the specification state: the files the history is about
+     Abs s m    every file of m is a plain regular file of the tree with the same size and bytes
+     Good s     no duplicate keys, not read-only, no MaxFileSize, every handle has its node
+     dreq       DRead h off cnt | DWrite h off stable data | DTrunc h sz   (READ / WRITE / SETATTR with only a size)
+     dreq_valid the inputs C01_read / C01_write / C01_setattr_size cover (the others: the *_guard theorems)
+     covered    every request is valid and its handle denotes a file of m
+     refines ts hp s m l   runs the model (hrun1: clock advance, then step) and the specification side by side:
+                after every step the reply is the specified one (status OK; READ: count, bytes, eof computed from
+                the byte array; WRITE: count = payload length, FILE_SYNC) and Abs holds again for the
+                specification state updated with spec_write / spec_trunc.
+   For histories of any length, arbitrary clock advances and credentials, any cache configuration. *)
+Theorem C01_history : forall l s m,
+  Good s -> Abs s m -> covered (tsize (conf s)) (get (hm s)) m l -> refines (tsize (conf s)) (get (hm s)) s m l.
+Proof. exact history_refines. Qed.
+
+Example C01_history_hyps :
+  let m0 : sfiles := fun q => if path_eqb q [[97]] then Some empty_file else None in
+  let l := [ {| d_adv := 1; d_cred := ex_cred; d_req := DWrite 2 5 0 [65; 66] |};
+             {| d_adv := 6000000000; d_cred := ex_cred; d_req := DRead 2 3 100 |};
+             {| d_adv := 0; d_cred := ex_cred; d_req := DTrunc 2 6 |};
+             {| d_adv := 0; d_cred := ex_cred; d_req := DRead 2 9223372036854775807 4 |} ] in
+  Good ex_s2 /\ Abs ex_s2 m0 /\ covered (tsize (conf ex_s2)) (get (hm ex_s2)) m0 l.
+Proof.
+  cbv zeta. split; [|split].
+  - split; [vm_compute; repeat constructor; cbn; intuition discriminate|].
+    split; [reflexivity|]. split; [reflexivity|]. apply live_check. vm_compute. reflexivity.
+  - intros p f. destruct (path_eqb p [[97]]) eqn:E; [|discriminate]. apply path_eqb_eq in E. subst p. intros [= <-].
+    exists (mk_file 420 7). split; [repeat split; vm_compute; reflexivity|apply bf_eq_refl].
+  - intros x Hx. cbn [In] in Hx.
+    repeat (destruct Hx as [<-|Hx]; [split; [vm_compute; repeat split; try reflexivity; intros X; discriminate X
+                                            |exists [[97]]; split; [vm_compute; reflexivity|discriminate]]|]).
+    destruct Hx.
+Qed.
+
 Print Assumptions C01_sd_write.
 Print Assumptions C01_sd_trunc.
 Print Assumptions C01_sd_read.
@@ -191,3 +227,4 @@ Print Assumptions C01_write_guard63.
 Print Assumptions C01_setattr_size.
 Print Assumptions C01_setattr_size_guard.
 Print Assumptions C01_create_new.
+Print Assumptions C01_history.
